@@ -5,6 +5,7 @@ All instrumentation is applied from here by wrapping methods; /repo needs no hoo
 """
 import functools
 import io
+import re
 import os
 import sys
 import contextlib
@@ -298,7 +299,18 @@ class Runner:
             self.steps = 0
             try:
                 self.out.append(f'runbegin {ticks(self.env.now)} {ticks(d)}')
-                self.system.simulate(d, print_summary=False)
+                # the printed summary is public behaviour: "Parts received by sink(s)" must count every registered
+                # sink, also those constructed while this run was in progress
+                before = _sink_total(self.system)
+                buf = io.StringIO()
+                try:
+                    with contextlib.redirect_stdout(buf):
+                        self.system.simulate(d, print_summary=True)
+                finally:
+                    m = re.search(r'Parts received by sink\(s\): (-?\d+)', buf.getvalue())
+                    after = _sink_total(self.system)
+                    if m and before is not None and after is not None and int(m.group(1)) != after - before:
+                        self.out.append(f'summary-mismatch printed={m.group(1)} received-by-registered-sinks={after - before}')
             except StepLimit:
                 self.out.append('abort StepLimit')
             except Exception as e:
@@ -312,6 +324,14 @@ class Runner:
 
     def handle_ext(self, toks):
         self.out.append('harness-error bad-line ' + ' '.join(toks))
+
+
+def _sink_total(system):
+    try:
+        from simprocesd.model.factory_floor.sink import Sink
+        return sum(a.received_parts_count for a in list(system._assets) if isinstance(a, Sink))
+    except Exception:
+        return None
 
 
 def run_text(text, runner_cls=Runner, **kw):
